@@ -416,3 +416,11 @@ package PVM
 //@   ensures conserve: g0 >= 10 && result.ExitReason == ExitContinue && input.VM.Registers[7] == OK && has(old(xacc(input)), s) ==> bal0 >= a && uint64(xacc(input)[s].ServiceInfo.Balance) == bal0 - a
 //@   ensures error: g0 >= 10 && result.ExitReason == ExitContinue && (input.VM.Registers[7] == WHO || input.VM.Registers[7] == LOW || input.VM.Registers[7] == CASH) ==> *input.VM.Gas == g0 - 10 && (has(old(xacc(input)), s) ==> uint64(xacc(input)[s].ServiceInfo.Balance) == bal0) && len(result.Addition.ResultContextX.DeferredTransfers) == len(old(input.Addition.ResultContextX.DeferredTransfers))
 //@   assigns everything
+
+// ---- solicit, new request (C07): FULL leaves the account exactly as it was; success adds the empty request and its footprint ----
+//@ func handleSolicitNewLookup
+//@   props C07 C09
+//@   requires args: account != nil && account.LookupDict != nil && registers != nil
+//@   ensures full: result != nil ==> registers[7] == FULL && account.ServiceInfo == old(account.ServiceInfo) && has(account.LookupDict, lookupKey) == old(has(account.LookupDict, lookupKey)) && frame_only(registers[7])
+//@   ensures added: result == nil ==> account.ServiceInfo.Items == old(account.ServiceInfo.Items) + itemFootprintItems && account.ServiceInfo.Bytes == old(account.ServiceInfo.Bytes) + itemFootprintOctets && has(account.LookupDict, lookupKey) && len(account.LookupDict[lookupKey]) == 0 && account.ServiceInfo.Balance == old(account.ServiceInfo.Balance)
+//@   assigns everything
